@@ -66,6 +66,10 @@ def run_impl(names, ops):
     uniq = sorted(set(names))
     ids = {nm: uniq.index(nm) for nm in uniq}
     objs = [object() for _ in range(6)]
+    import torch
+    ft = torch.futures.Future(); ft.set_result(torch.ones(2))
+    objs[3] = ft                      # an (already completed) Future is a return value like any other: handed back as it is
+    objs[4] = (ft, None)
     excs = [_Boom(f'e{i}') for i in range(6)]
     probs = []
     seen = {}
